@@ -1,7 +1,8 @@
 (* C08 — CSV/TSV input follows RFC 4180; CSV output reads back to the same fields.
-   Only statements closed by [exact] of a lemma proved in Proofs/, the full statements that
-   the pinned tree violates together with their [_refuted] witnesses, non-vacuity examples,
-   and Print Assumptions. *)
+   Only statements closed by [exact] of a lemma proved in Proofs/, non-vacuity examples and
+   Print Assumptions.  (The [_refuted] witnesses of the BOM defects F-C08-1/2/4 and of the lost
+   single empty field F-C08-3 are gone with the defects: their full statements are theorems
+   here; the former witnesses are kept as examples of the repaired behaviour.) *)
 From Verif Require Import Lib.Base Lib.Utf8 Model.Csv Proofs.CsvBase Proofs.CsvFuel Proofs.CsvRoundtrip
   Proofs.CsvAccount Proofs.CsvChunks Proofs.CsvScanner Proofs.CsvRfc.
 
@@ -29,59 +30,43 @@ Print Assumptions C08_scan_total.
 (* ------------------------------------------------------------------------- *)
 (* the reader against the RFC 4180 specification                              *)
 
-(* For every input byte string the fields of every record the reader delivers are those of
-   the independent specification rfc_parse (lexer + six-state machine in Model/Csv.v: quoted
-   fields may hold separators, doubled quotes and line breaks, lenient bare quotes, blank and
-   comment lines skipped, CR LF accepted and folded inside quotes, a lone CR closing the input
-   ignored).  Proved for single-byte separators and comment characters and inputs not starting
-   with a BOM; header mode on or off (the header row is the first row of the specification). *)
+(* For EVERY input byte string the fields of every record the reader delivers are those of
+   the independent specification rfc_parse (lexer + six-state machine in Model/Csv.v: a
+   leading byte-order mark ignored, quoted fields may hold separators, doubled quotes and line
+   breaks, lenient bare quotes, blank and comment lines skipped, CR LF accepted and folded
+   inside quotes, a lone CR closing the input ignored).  Proved for single-byte separators and
+   comment characters; header mode on or off (the header row is the first row of the
+   specification). *)
 Theorem C08_reader_is_rfc : forall c data,
   valid_sep (c_sep c) -> c_sep c < 128 ->
   (c_comment c = 0 \/ (valid_sep (c_comment c) /\ c_comment c < 128)) -> c_sep c <> c_comment c ->
-  prefix_of bom data = false ->
   map ev_fields (read_file c data) = rfc_parse (c_sep c) (c_comment c) data.
 Proof. exact reader_is_rfc. Qed.
 Print Assumptions C08_reader_is_rfc.
 
 Example C08_ex_rfc :
-  let data := [35; 120; 10; 10; 97; 44; 34; 98; 34; 34; 44; 13; 10; 99; 34; 44; 100; 34; 101; 13; 10;
+  let data := [239; 187; 191; 35; 120; 10; 10; 97; 44; 34; 98; 34; 34; 44; 13; 10; 99; 34; 44; 100; 34; 101; 13; 10;
                34; 103; 34; 104; 34; 10; 13; 10; 105; 13] in
-  prefix_of bom data = false /\
-  rfc_parse 44 35 data = [[[97]; [98; 34; 44; 10; 99]; [100; 34; 101]]; [[103; 34; 104]]; [[105]]].
-Proof. vm_compute. repeat split; reflexivity. Qed.
+  rfc_parse 44 35 data = [[[97]; [98; 34; 44; 10; 99]; [100; 34; 101]]; [[103; 34; 104]]; [[105]]] /\
+  map ev_fields (read_file (mkCfg 44 35 false) data) = rfc_parse 44 35 data.
+Proof. vm_compute. split; reflexivity. Qed.
 
 (* ------------------------------------------------------------------------- *)
 (* write -> read round trip                                                   *)
 
-(* the statement of the property: every list of CR-free field values comes back *)
-Definition C08_roundtrip_full_statement : Prop :=
-  forall c rows, valid_sep (c_sep c) -> c_comment c = 0 -> c_header c = false ->
-    Forall (fun fs => fs <> [] /\ Forall (nob 13) fs) rows ->
-    read_file c (write_csv (c_sep c) false rows) =
-    map (fun fs => ERecord (join_fields (c_sep c) false fs) fs) rows.
-
-(* F-C08-3: print "" writes an empty line, which the reader skips *)
-Theorem C08_roundtrip_refuted : ~ C08_roundtrip_full_statement.
-Proof.
-  intros H. specialize (H (mkCfg 44 0 false) [[[]]]). cbn [c_sep c_comment c_header] in H.
-  assert (X : read_file (mkCfg 44 0 false) (write_csv 44 false [[[]]]) =
-              map (fun fs => ERecord (join_fields 44 false fs) fs) [[[]]]).
-  { apply H; [vm_compute; reflexivity | reflexivity | reflexivity | repeat constructor; discriminate]. }
-  vm_compute in X. discriminate X.
-Qed.
-Print Assumptions C08_roundtrip_refuted.
-
-(* ... and holds for every separator, every row list, every field content once a row that is
-   a single empty field and a first field starting with the BOM bytes are excluded
-   ([row_ok fs] = fs <> [] /\ fs <> [[]] /\ no CR in any field).  $0 of each record read
-   back is exactly the text that was written for it. *)
-Theorem C08_roundtrip_partial : forall c rows,
+(* Every list of rows of CR-free field values (rows of at least one field: print needs an
+   argument) written by print in CSV/TSV output mode is read back as exactly those rows, for
+   every valid separator; $0 of each record read back is the text that was written for it.
+   [row_ok fs] = fs <> [] /\ no CR in any field.  The one remaining premise is inherent: the
+   first field of the output must not start with the bytes of a BOM (the reader is required to
+   ignore a leading BOM). *)
+Theorem C08_roundtrip : forall c rows,
   valid_sep (c_sep c) -> c_comment c = 0 -> c_header c = false -> Forall row_ok rows ->
   prefix_of bom (write_csv (c_sep c) false rows) = false ->
   read_file c (write_csv (c_sep c) false rows) =
   map (fun fs => ERecord (join_fields (c_sep c) false fs) fs) rows.
 Proof. exact roundtrip_file. Qed.
-Print Assumptions C08_roundtrip_partial.
+Print Assumptions C08_roundtrip.
 
 (* one call of csvSplitter.scan on a written row: whatever follows the row's newline, whatever
    the buffer holds behind the data (stale, nz), atEOF or not; also for a row standing alone
@@ -90,10 +75,10 @@ Theorem C08_scan_reads_written_row : forall c e, valid_sep (c_sep c) ->
   forall T, (exists rest, T = 10 :: rest) \/ (T = [] /\ e = true) ->
   forall fs s stale nz,
   c_comment c = 0 -> c_header c = false -> 0 <= nz ->
-  fs <> [] -> fs <> [[]] -> Forall (nob 13) fs ->
-  (st_noBOM s = true \/ prefix_of bom (encs c fs ++ T) = false) ->
-  scan c s (encs c fs ++ T) stale nz e =
-    (mkSt true (st_row s + 1), ORecord (zlen (encs c fs) + zlen (fl1 T)) (encs c fs) fs).
+  fs <> [] -> Forall (nob 13) fs ->
+  (st_noBOM s = true \/ prefix_of bom (rtext c fs ++ T) = false) ->
+  scan c s (rtext c fs ++ T) stale nz e =
+    (mkSt true (st_row s + 1), ORecord (zlen (rtext c fs) + zlen (fl1 T)) (rtext c fs) fs).
 Proof. exact scan_written_row. Qed.
 Print Assumptions C08_scan_reads_written_row.
 
@@ -107,6 +92,14 @@ Theorem C08_rebuilt_record_reparses : forall c s fs stale nz,
 Proof. exact roundtrip_rebuilt. Qed.
 Print Assumptions C08_rebuilt_record_reparses.
 
+(* the row that used to be lost (F-C08-3, repaired): a single empty field is written as two
+   quotes and comes back *)
+Example C08_single_empty_field :
+  write_csv 44 false [[[97]]; [[]]; [[98]]] = [97; 10; 34; 34; 10; 98; 10] /\
+  read_file (mkCfg 44 0 false) (write_csv 44 false [[[97]]; [[]]; [[98]]]) =
+  [ERecord [97] [[97]]; ERecord [34; 34] [[]]; ERecord [98] [[98]]].
+Proof. vm_compute. split; reflexivity. Qed.
+
 (* the two inherent exclusions are real: a first field starting with the comment character
    reads back as a comment line; a first field starting with the BOM bytes loses them *)
 Example C08_comment_field_lost :
@@ -114,21 +107,20 @@ Example C08_comment_field_lost :
   = [ERecord [122] [[122]]].
 Proof. vm_compute. reflexivity. Qed.
 Example C08_bom_field_lost :
-  map (fun ev => match ev with ERecord _ fs => fs | EHeader fs => fs end)
-      (fst (read_csv (mkCfg 44 0 false) 65536 10485760 [write_csv 44 false [[[239; 187; 191; 97]; [98]]; [[99]]]]))
+  map ev_fields (read_file (mkCfg 44 0 false) (write_csv 44 false [[[239; 187; 191; 97]; [98]]; [[99]]]))
   = [[[97]; [98]]; [[99]]].
 Proof. vm_compute. reflexivity. Qed.
 
 (* non-vacuity: rows with separators, quotes, line breaks, leading blanks, empty fields, a
-   multi-byte separator *)
+   single empty field, a multi-byte separator *)
 Example C08_ex_rows_ok :
-  Forall row_ok [[[97; 44; 98]; [99; 34; 100]; [101; 10; 102]]; [[]; [32; 120]]; [[10]]].
+  Forall row_ok [[[97; 44; 98]; [99; 34; 100]; [101; 10; 102]]; [[]; [32; 120]]; [[10]]; [[]]].
 Proof. repeat constructor; try discriminate; unfold nob; repeat constructor; discriminate. Qed.
 Example C08_ex_roundtrip :
-  let rows := [[[97; 44; 98]; [99; 34; 100]; [101; 10; 102]]; [[]; [32; 120]]; [[10]]] in
+  let rows := [[[97; 44; 98]; [99; 34; 100]; [101; 10; 102]]; [[]; [32; 120]]; [[10]]; [[]]] in
   write_csv 233 false rows =
     [97; 44; 98; 195; 169; 34; 99; 34; 34; 100; 34; 195; 169; 34; 101; 10; 102; 34; 10;
-     195; 169; 34; 32; 120; 34; 10; 34; 10; 34; 10] /\
+     195; 169; 34; 32; 120; 34; 10; 34; 10; 34; 10; 34; 34; 10] /\
   read_file (mkCfg 233 0 false) (write_csv 233 false rows) =
   map (fun fs => ERecord (join_fields 233 false fs) fs) rows.
 Proof. vm_compute. split; reflexivity. Qed.
@@ -136,107 +128,85 @@ Example C08_ex_valid_sep : valid_sep 233 /\ valid_sep 44 /\ valid_sep 9 /\ valid
 Proof. repeat split; vm_compute; reflexivity. Qed.
 
 (* ------------------------------------------------------------------------- *)
-(* $0 and the byte-order mark: what the pinned tree does                      *)
+(* $0 is the record's own text                                                *)
 
-(* "$0 is the record's own text": in particular it cannot depend on what the Scanner's buffer
-   happens to hold behind the data it hands to the splitter *)
-Definition C08_dollar0_full_statement : Prop :=
-  forall c s data stale nz stale' nz' e,
+(* $0 cannot depend on what the Scanner's buffer happens to hold behind the data it hands to
+   the splitter ([nz] is a capacity: not negative) *)
+Theorem C08_dollar0_own_text : forall c, valid_sep (c_sep c) ->
+  forall s data stale nz stale' nz' e, 0 <= nz -> 0 <= nz' ->
     scan c s data stale nz e = scan c s data stale' nz' e.
+Proof. exact scan_behind_irrelevant. Qed.
+Print Assumptions C08_dollar0_own_text.
 
-(* F-C08-1: with a BOM, advance counts the 3 BOM bytes but origData starts after them *)
-Theorem C08_dollar0_refuted : ~ C08_dollar0_full_statement.
-Proof.
-  intros H.
-  specialize (H (mkCfg 44 0 false) (mkSt false 0) [239; 187; 191; 97; 44; 98; 10] [99; 44; 100] 0 [] 3 false).
-  vm_compute in H. discriminate H.
-Qed.
-Print Assumptions C08_dollar0_refuted.
-
-(* ... and without a BOM in the call $0 is cut out of the call's own data: advance never
-   leaves the data, $0 = data[skip:advance] without its line terminator (CRs removed after a
-   CR LF inside quotes) whatever lies behind the data, and the slice cannot panic.  With a
-   BOM the advance is still in range (the Scanner never reports ErrAdvanceTooFar). *)
-Theorem C08_dollar0_partial : forall c s data stale nz e, valid_sep (c_sep c) -> 0 <= nz ->
+(* advance never leaves the data; $0 = data[skip:advance] without its line terminator (CRs
+   removed after a CR LF inside quotes), with skip behind a BOM the call skipped; the slice
+   cannot panic *)
+Theorem C08_dollar0_accounting : forall c s data stale nz e, valid_sep (c_sep c) -> 0 <= nz ->
   match snd (scan c s data stale nz e) with
   | ORecord adv tok fields =>
       0 <= adv <= zlen data /\
-      ((st_noBOM s = true \/ prefix_of bom data = false) ->
-       exists skip cr, 0 <= skip <= adv /\ tok = finish_token cr (ztake (adv - skip) (zdrop skip data)))
+      exists skip cr, 0 <= skip <= adv /\
+        (negb (st_noBOM s) && prefix_of bom data = true -> 3 <= skip) /\
+        tok = finish_token cr (ztake (adv - skip) (zdrop skip data))
   | OHeader adv _ => 0 <= adv <= zlen data
-  | OPanic => st_noBOM s = false /\ prefix_of bom data = true
+  | OPanic => False
   | _ => True
   end.
 Proof. exact scan_accounting. Qed.
-Print Assumptions C08_dollar0_partial.
+Print Assumptions C08_dollar0_accounting.
 
-(* the same through the whole reader: $0 of the first record is "a,b\nc,d" *)
-Example C08_bom_dollar0_witness :
+(* the former witnesses of F-C08-1 and F-C08-4, repaired: with a leading BOM $0 of the first
+   record is "a,b", and a first record reaching the end of an 8-byte buffer is read *)
+Example C08_bom_dollar0 :
   read_csv (mkCfg 44 0 false) 65536 10485760 [[239; 187; 191; 97; 44; 98; 10; 99; 44; 100; 10]]
-  = ([ERecord [97; 44; 98; 10; 99; 44; 100] [[97]; [98]]; ERecord [99; 44; 100] [[99]; [100]]], FEOF).
+  = ([ERecord [97; 44; 98] [[97]; [98]]; ERecord [99; 44; 100] [[99]; [100]]], FEOF).
+Proof. vm_compute. reflexivity. Qed.
+Example C08_bom_at_capacity :
+  read_csv (mkCfg 44 0 false) 8 64 [[239; 187; 191; 97; 44; 98; 99; 10]]
+  = ([ERecord [97; 44; 98; 99] [[97]; [98; 99]]], FEOF).
 Proof. vm_compute. reflexivity. Qed.
 
-(* F-C08-4: the same slice panics when the record ends within 3 bytes of the buffer's capacity *)
-Example C08_bom_panic_witness :
-  snd (read_csv (mkCfg 44 0 false) 8 64 [[239; 187; 191; 97; 44; 98; 99; 10]]) = FPanic.
-Proof. vm_compute. reflexivity. Qed.
+(* ------------------------------------------------------------------------- *)
+(* none of this depends on how the input is chunked                           *)
 
-(* "none of this depends on how the input is chunked" *)
-Definition C08_chunk_full_statement : Prop :=
-  forall c cap maxtok chunks,
-    read_csv c cap maxtok chunks = read_csv c cap maxtok [concat chunks].
-
-(* F-C08-2: the BOM flag is set although the call returns "need more data" *)
-Theorem C08_chunk_refuted : ~ C08_chunk_full_statement.
-Proof.
-  intros H.
-  specialize (H (mkCfg 44 0 true) 65536 10485760 [[239; 187; 191; 97; 44; 98]; [10; 49; 44; 50; 10]]).
-  vm_compute in H. discriminate H.
-Qed.
-Print Assumptions C08_chunk_refuted.
-
-(* ... and holds for every input that does not start with a BOM.  Three steps:
-   (1) a row decided before EOF is decided identically (advance, $0, fields, state) whatever
+(* (1) a row decided before EOF is decided identically (advance, $0, fields, state) whatever
        arrives later, whatever the buffer holds behind the data, and at EOF; *)
 Theorem C08_scan_stable : forall c s data stale nz more stale' nz' e',
-  valid_sep (c_sep c) -> 0 <= nz -> 0 <= nz' -> nobom s (data ++ more) ->
+  valid_sep (c_sep c) -> 0 <= nz -> 0 <= nz' ->
   decided (snd (scan c s data stale nz false)) ->
   scan c s (data ++ more) stale' nz' e' = scan c s data stale nz false.
 Proof. exact scan_stable. Qed.
 Print Assumptions C08_scan_stable.
 
-(* (2) a "need more data" answer leaves the splitter's state as it was; *)
-Theorem C08_need_more_keeps_state : forall c s data stale nz e s', nobom s data ->
+(* (2) a "need more data" answer leaves the splitter's state as it was (BOM flag included); *)
+Theorem C08_need_more_keeps_state : forall c s data stale nz e s',
   scan c s data stale nz e = (s', ONeed) -> s' = s.
 Proof. exact scan_need_state. Qed.
 Print Assumptions C08_need_more_keeps_state.
 
 (* (3) hence the Scanner loop ([arun]: buffered bytes + reads still to come, one split call
    per iteration, a read after every nil token, stop at EOF) delivers, for EVERY way of
-   cutting the input into reads, exactly the events (header names, $0, fields) of the
+   cutting ANY input into reads, exactly the events (header names, $0, fields) of the
    splitter run over the whole input. *)
-Theorem C08_chunk_independent_partial : forall c, valid_sep (c_sep c) -> forall chunks,
-  prefix_of bom (concat chunks) = false ->
+Theorem C08_chunk_independent : forall c, valid_sep (c_sep c) -> forall chunks,
   arun (S (msr [] chunks false)) c (mkSt false 0) [] chunks false = read_file c (concat chunks).
 Proof. exact csv_chunk_independent. Qed.
-Print Assumptions C08_chunk_independent_partial.
+Print Assumptions C08_chunk_independent.
 
 (* (4) the same for the buffer-level model of bufio.Scanner (the one that is run against the
    implementation, stale bytes and capacity included), for inputs shorter than half the buffer
-   (goawk: 64 KiB buffer): it delivers the events of the whole-input reader, hence the guarded
-   form of C08_chunk_full_statement, and the round trip under every chunking. *)
+   (goawk: 64 KiB buffer; the bound is a limit of this refinement proof, not of the code) *)
 Theorem C08_reader_is_whole_input_reader : forall c cap maxtok chunks,
-  valid_sep (c_sep c) -> prefix_of bom (concat chunks) = false ->
-  2 * zlen (concat chunks) < cap ->
+  valid_sep (c_sep c) -> 2 * zlen (concat chunks) < cap ->
   read_csv c cap maxtok chunks = (read_file c (concat chunks), FEOF).
 Proof. exact read_csv_is_read_file. Qed.
 Print Assumptions C08_reader_is_whole_input_reader.
 
-Theorem C08_chunk_partial : forall c cap maxtok chunks,
-  valid_sep (c_sep c) -> prefix_of bom (concat chunks) = false -> 2 * zlen (concat chunks) < cap ->
+Theorem C08_chunk_independent_buffer_model : forall c cap maxtok chunks,
+  valid_sep (c_sep c) -> 2 * zlen (concat chunks) < cap ->
   read_csv c cap maxtok chunks = read_csv c cap maxtok [concat chunks].
 Proof. exact read_csv_chunk_independent. Qed.
-Print Assumptions C08_chunk_partial.
+Print Assumptions C08_chunk_independent_buffer_model.
 
 Theorem C08_roundtrip_any_chunking : forall c cap maxtok rows chunks,
   valid_sep (c_sep c) -> c_comment c = 0 -> c_header c = false -> Forall row_ok rows ->
@@ -249,12 +219,15 @@ Print Assumptions C08_roundtrip_any_chunking.
 
 Example C08_ex_chunks :
   let chunks := [[97; 44; 34]; [98; 10]; [99; 34; 10; 100]; [44; 101; 13]; [10; 102]] in
-  prefix_of bom (concat chunks) = false /\
   arun (S (msr [] chunks false)) (mkCfg 44 0 true) (mkSt false 0) [] chunks false =
   [EHeader [[97]; [98; 10; 99]]; ERecord [100; 44; 101] [[100]; [101]]; ERecord [102] [[102]]].
-Proof. vm_compute. split; reflexivity. Qed.
-
-Example C08_bom_split_witness :
-  read_csv (mkCfg 44 0 true) 65536 10485760 [[239; 187; 191; 97; 44; 98]; [10; 49; 44; 50; 10]]
-  = ([EHeader [[239; 187; 191; 97]; [98]]; ERecord [49; 44; 50] [[49]; [50]]], FEOF).
 Proof. vm_compute. reflexivity. Qed.
+
+(* the former witness of F-C08-2, repaired: BOM + first line arriving in two reads, and a
+   BOM file whose only line has no newline *)
+Example C08_bom_split :
+  read_csv (mkCfg 44 0 true) 65536 10485760 [[239; 187; 191; 97; 44; 98]; [10; 49; 44; 50; 10]]
+  = ([EHeader [[97]; [98]]; ERecord [49; 44; 50] [[49]; [50]]], FEOF) /\
+  read_csv (mkCfg 44 0 false) 65536 10485760 [[239; 187; 191; 97; 44; 98]]
+  = ([ERecord [97; 44; 98] [[97]; [98]]], FEOF).
+Proof. vm_compute. split; reflexivity. Qed.
